@@ -1,1 +1,73 @@
-(* C09 placeholder; theorems follow *)
+(* C09 — Metadata block codec: canonical, bounded, all-or-nothing pairs. *)
+From Coq Require Import List NArith ZArith Permutation.
+From Coq.Strings Require Import Byte.
+From OAP Require Import Base.Bytes Base.Res Gen.Consts Model.Metadata Proofs.MetadataP.
+Import ListNotations.
+Local Open Scope N_scope.
+
+(* canonical length prefix, for every string (hence every length 0..32768 and above) *)
+Theorem C09_prefix_canonical : forall s,
+  marshal_string s = option_map (fun p => p ++ s) (spec_prefix (N.of_nat (length s))).
+Proof. exact marshal_string_canonical. Qed.
+Theorem C09_overlong_refused : forall s, 32767 < N.of_nat (length s) <-> marshal_string s = None.
+Proof. exact marshal_string_too_long. Qed.
+(* decoder side: what the encoder writes is read back, whatever follows *)
+Theorem C09_string_roundtrip : forall s b r, marshal_string s = Some b -> get_string (b ++ r) = Ok (s, r).
+Proof. exact get_string_marshal. Qed.
+(* the decoder accepts ONLY canonical, untruncated strings/blocks *)
+Theorem C09_decoder_accepts_only_canonical : forall data s r,
+  get_string data = Ok (s, r) -> exists b, marshal_string s = Some b /\ data = b ++ r.
+Proof. exact get_string_canonical. Qed.
+Theorem C09_block_accepted_iff_canonical : forall fuel data ps,
+  parse_pairs fuel data = Ok ps -> marshal_pairs ps = Some data.
+Proof. exact parse_canonical. Qed.
+Theorem C09_canonical_block_accepted : forall ps data fuel,
+  marshal_pairs ps = Some data -> (length data <= fuel)%nat -> parse_pairs fuel data = Ok ps.
+Proof. exact parse_marshal. Qed.
+Theorem C09_noncanonical_two_byte_rejected : forall hi lo rest,
+  128 <= bN hi -> (bN hi - 128) * 256 + bN lo <= 127 -> unmarshal_len (hi :: lo :: rest) = Err EInvalidMetadata.
+Proof. exact noncanonical_rejected. Qed.
+Theorem C09_truncated_rejected : forall data ps,
+  unmarshal_values data = Ok ps -> data = [] \/ exists qs, marshal_pairs qs = Some data.
+Proof. exact truncated_rejected. Qed.
+(* totality on all byte strings (shared with C04) *)
+Theorem C09_decoder_total : forall data,
+  unmarshal_values data <> Panic /\ unmarshal_values data <> OutOfFuel.
+Proof. exact unmarshal_values_total. Qed.
+(* encoder: budget, whole pairs *)
+Theorem C09_budget : forall m max, (Z.of_nat (length (marshal_values m max)) <= Z.max 0 max)%Z.
+Proof. exact marshal_budget. Qed.
+Theorem C09_whole_pairs : forall m max, marshal_pairs (selected m max 0) = Some (marshal_values m max).
+Proof. exact marshal_whole_pairs. Qed.
+Theorem C09_selected_are_eligible_inputs : forall m max used, incl (selected m max used) (filter eligible m).
+Proof. exact selected_sub. Qed.
+(* round trip *)
+Theorem C09_roundtrip : forall m max,
+  wf_md m = true -> (Z.of_nat (pairs_size m) <= max)%Z -> unmarshal_values (marshal_values m max) = Ok m.
+Proof. exact roundtrip. Qed.
+(* Set *)
+Theorem C09_set_refuses : forall k v m,
+  (32767 < N.of_nat (length k) -> md_set k v m = Err EKeyTooLong) /\
+  (N.of_nat (length k) <= 32767 -> 32767 < N.of_nat (length v) -> md_set k v m = Err EValTooLong) /\
+  (N.of_nat (length k) <= 32767 -> N.of_nat (length v) <= 32767 -> md_set k v m = Ok (md_insert (lower k) v m)).
+Proof. exact set_refuses. Qed.
+(* determinism: independent of insertion/iteration order *)
+Theorem C09_deterministic : forall l1 l2 max,
+  Permutation l1 l2 -> keys_nodup l1 -> marshal_values (md_of_list l1) max = marshal_values (md_of_list l2) max.
+Proof. exact marshal_deterministic. Qed.
+
+Print Assumptions C09_prefix_canonical.
+Print Assumptions C09_overlong_refused.
+Print Assumptions C09_string_roundtrip.
+Print Assumptions C09_decoder_accepts_only_canonical.
+Print Assumptions C09_block_accepted_iff_canonical.
+Print Assumptions C09_canonical_block_accepted.
+Print Assumptions C09_noncanonical_two_byte_rejected.
+Print Assumptions C09_truncated_rejected.
+Print Assumptions C09_decoder_total.
+Print Assumptions C09_budget.
+Print Assumptions C09_whole_pairs.
+Print Assumptions C09_selected_are_eligible_inputs.
+Print Assumptions C09_roundtrip.
+Print Assumptions C09_set_refuses.
+Print Assumptions C09_deterministic.
